@@ -1,4 +1,5 @@
 import Jose.Jwe
+import Jose.Lemmas.Pbes2
 import Jose.Lemmas.Tree
 /-
   C02 — JWE decryption is authenticated over protected, aad, iv, ciphertext, tag.
@@ -162,36 +163,19 @@ theorem unw_aeskw (P : Prims) (name : String) (klen : Nat) (jwe rcp jwk cek cek'
       exact ⟨kek, ct, pt, c, hk, hct, by omega, hpt, rfl, rfl⟩
   | _ => simp at h
 
-/-- key management, PBES2: an iteration count above the maximum is refused before any key
+/-- key management, PBES2: an iteration count outside 1..max is refused before any key
     derivation; the salt is `alg ‖ 0x00 ‖ p2s` with 8 ≤ |p2s| ≤ KEYMAX (C14) -/
 theorem unw_pbes2_bounds (P : Prims) (name hs aes : String) (klen : Nat) (jwe rcp jwk cek cek' : Json) (rnd : Bs) (fuel : Nat)
     (hf : wrapFamily name = some (.pbes2 hs aes klen)) (h : unw P (fuel + 1) name jwe rcp jwk cek rnd = some cek') :
-    ∃ hdr p2c st, jweHdr jwe (some rcp) = some hdr ∧ hdr.get? "p2c" = some (.int p2c) ∧ p2c ≤ p2cMax ∧
+    ∃ hdr p2c st, jweHdr jwe (some rcp) = some hdr ∧ hdr.get? "p2c" = some (.int p2c) ∧ 1 ≤ p2c ∧ p2c ≤ p2cMax ∧
       bytesOfJson (hdr.get? "p2s") = some st ∧ 8 ≤ st.length ∧ st.length ≤ keymax := by
   simp only [unw, hf] at h
   cases cek with
   | obj c =>
     simp only [Option.bind_eq_some_iff] at h
-    obtain ⟨hdr, hh, hrest⟩ := h
-    cases hp : hdr.get? "p2c" with
-    | none => simp [hp] at hrest
-    | some pj =>
-      cases pj with
-      | int p2c =>
-        simp only [hp] at hrest
-        split at hrest
-        · simp at hrest
-        · rename_i hmax
-          cases hst : bytesOfJson (hdr.get? "p2s") with
-          | none => simp [hst] at hrest
-          | some st =>
-            simp only [hst] at hrest
-            split at hrest
-            · simp at hrest
-            · rename_i hlen
-              simp only [Bool.or_eq_true, decide_eq_true_eq, not_or, Nat.not_lt] at hlen
-              exact ⟨hdr, p2c, st, hh, hp, by omega, hst, hlen.1, by omega⟩
-      | _ => simp [hp] at hrest
+    obtain ⟨hdr, hh, ⟨it, st⟩, hpar, _⟩ := h
+    obtain ⟨p2c, hp, h1, h2, _, hst, hl1, hl2⟩ := pbes2UnwParams_some hdr it st hpar
+    exact ⟨hdr, p2c, st, hh, hp, h1, h2, hst, hl1, hl2⟩
   | _ => simp at h
 
 /-- table facts: every registered content-encryption / key-management name belongs to a
